@@ -15,7 +15,7 @@ from symx.stubs import stubbed
 
 META = dict(
     bounds=dict(
-        quick="one centre, one-primitive shells (s, p, Cartesian d/f, pure d/f/g), orbitals = the normalised basis functions "
+        quick="one centre, one-primitive shells (s, p, Cartesian d/f, pure d/f/g/h), orbitals = the normalised basis functions "
               "themselves; encodings: standard, ORCA, PSI4 <= 1.0, Turbomole, CFOUR 2.1, unnormalised contractions, "
               "PSI4 <= 1.3.2, and a corrupted one (factor 2 on one shell); exponents symbolic (all reals in [0.2, 30]) for "
               "the s/p cases, from a rational grid otherwise; norm_threshold 1e-4, and 1e-2 with orbitals scaled by a symbolic factor s with |s^2 - 1| <= threshold (every "
@@ -51,9 +51,10 @@ def _encode(vendor, shells, exps):
         if vendor == "orca":
             if l <= 1 or kind == "p":
                 f = BF.cart_norm(a, ORCA_PW[l])
-            if kind == "p" and l in (3, 4):
-                # ORCA sign conventions: -c3 -s3 (-c4 -s4) in the order c0 c1 s1 c2 s2 c3 s3 c4 s4
-                c = [1.0] * 5 + [-1.0] * (n - 5)
+            if kind == "p" and l in (3, 4, 5):
+                # ORCA sign conventions: -c3 -s3 (-c4 -s4) in the order c0 c1 s1 c2 s2 c3 s3 c4 s4 (c5 s5); for h shells the
+                # m = +-5 functions keep their sign (Multiwfn manual on ORCA Molden files: F(+-3), G(+-3), G(+-4), H(+-3), H(+-4))
+                c = [1.0] * 5 + [-1.0] * (min(n, 9) - 5) + [1.0] * max(0, n - 9)
         elif vendor == "psi4":
             if l <= 1:
                 f = BF.cart_norm(a, ORCA_PW[l])
@@ -186,6 +187,7 @@ def jobs(tier):
         ("psi4", ((1, "c"),), True),
         ("standard", ((0, "c"), (1, "c"), (2, "p"), (3, "p")), False), ("standard", ((2, "c"), (3, "c")), False),
         ("orca", ((0, "c"), (1, "c"), (2, "p"), (3, "p"), (4, "p")), False), ("psi4", ((0, "c"), (2, "p"), (3, "p")), False),
+        ("orca", ((0, "c"), (5, "p")), False), ("standard", ((0, "c"), (5, "p")), False),
         ("turbomole", ((0, "c"), (2, "c"), (3, "c")), False), ("cfour", ((0, "c"), (2, "c"), (3, "c")), False),
         ("unnormalized", ((0, "c"), (1, "c"), (2, "p")), False), ("psi4-1.3.2", ((0, "c"), (2, "c")), False),
         ("corrupt", ((0, "c"), (1, "c")), False), ("corrupt", ((0, "c"), (2, "p")), False),
